@@ -333,6 +333,10 @@ def _run_pair(idx, cchoice, schoice, scred):
     if ok:
         res["c"] = view(p.c, "c")
         res["s"] = view(p.s, "s")
+        if not res["s"]["group"] and res["c"]["group"]:
+            # TLS <= 1.2: the server object does not expose the group of its own ServerKeyExchange; what the client
+            # read from it is what the server chose and has to lie within the server's policy, too
+            res["s"]["group"] = res["c"]["group"]
         if use_psk:
             res["c"]["pskMode"] = _psk_mode(p.s2c.dlv_log)
             res["s"]["pskMode"] = _psk_mode(p.s2c.sent_log)
@@ -432,8 +436,9 @@ def enumerate_jobs(tier, seed):
         jobs.append((len(jobs), cc, sc, cred_))
     base = {d: None for d in dims}
     pairs = list(itertools.product(dims, dims))
-    if tier == "quick":
-        pairs = [pq for i, pq in enumerate(pairs) if (i + seed) % 2 == 0 or pq[0] == pq[1]]
+    # quick: every pair of dimensions with the plain RSA credential, half of the pairs (rotating with the seed) with
+    # a third of the other credentials
+    full = set(pq for i, pq in enumerate(pairs) if tier != "quick" or (i + seed) % 2 == 0 or pq[0] == pq[1])
     for d1, d2 in pairs:
         for r1 in DIMS[d1]:
             for r2 in DIMS[d2]:
@@ -442,9 +447,22 @@ def enumerate_jobs(tier, seed):
                 cc[d1] = r1
                 sc[d2] = r2
                 for ci, cr in enumerate(SERVER_CREDS):
-                    if cr != "rsa" and (len(jobs) + seed + ci) % 3 and tier == "quick":
+                    if cr != "rsa" and ((d1, d2) not in full or ((len(jobs) + seed + ci) % 3 and tier == "quick")):
                         continue
                     add(cc, sc, cr)
+    # the key exchange forced on the client side, per version range, against every group / key-size restriction of the
+    # server (group policy must hold also where the ClientHello cannot name groups: SSLv3)
+    for r1 in DIMS["vers"]:
+        for kx in (["ecdhe_rsa"], ["dhe_rsa"]):
+            for d2 in ("eccCurves", "dhGroups", "keySize"):
+                for r2 in DIMS[d2]:
+                    cc = dict(base)
+                    sc = dict(base)
+                    cc["vers"], cc["keyExchangeNames"] = r1, kx
+                    sc[d2] = r2
+                    if r1 is not None and r1[1] == (3, 0):
+                        sc["vers"] = ((3, 0), (3, 1))       # (the default server does not speak SSLv3)
+                    add(cc, sc, "rsa")
     extra = 300 if tier == "quick" else 4000
     for _ in range(extra):
         cc = {d: (rnd.choice(DIMS[d]) if rnd.random() < 0.35 else None) for d in dims}
